@@ -240,8 +240,8 @@ def kani_cmd(h, extra=()):
 	cmd = ["cargo", "kani", "-p", h.crate, "--harness", h.full, "--exact", "-Z", "stubbing", "--target-dir", TARGET]
 	cmd += list(h.kani_args) + list(extra) + os.environ.get("VERIF_KANI_ARGS", "").split()
 	cb = list(h.cbmc_args)
-	if h.unwindset_resolved:
-		cb += ["--unwindset", ",".join(f"{lid}:{n}" for lid, n in h.unwindset_resolved)]
+	if getattr(h, "unwindset_resolved", None):
+		cb += ["--unwindset", ",".join(f"{lid}:{n}" for lid, n in getattr(h, "unwindset_resolved", []))]
 	if cb:
 		if "unstable-options" not in cmd:
 			cmd += ["-Z", "unstable-options"]
@@ -493,7 +493,16 @@ def run_property(prop, harnesses, tier, meta, extra=None):
 		print(f"INCONCLUSIVE property={prop} overlay did not apply: {e}")
 		write_evidence(prop, tier, seed, [], meta, time.time() - t0, 0, [f"overlay did not apply: {e}"], [])
 		return 2
-	# warm build: the first harness compiles the dependency graph while the others wait on cargo's lock
+	# warm build (untimed for the harnesses): on a cold cache the dependency graph (Kani's std, ~200 crates) takes minutes to
+	# build, and harnesses waiting on cargo's build lock would otherwise burn their own time-outs. One codegen-only run per
+	# crate brings the dependencies up to date; the per-harness runs then only recompile the crate under test.
+	for crate in sorted({h.crate for h in sel}):
+		h0 = next(h for h in sel if h.crate == crate)
+		os.makedirs(LOGS, exist_ok=True)
+		with open(os.path.join(LOGS, f"{crate}-warmup.log"), "w") as wlog:
+			wrc = run_limited(kani_cmd(h0, ["--only-codegen"]), WS, wlog, 3600, 24)
+		if wrc == 124:
+			print(f"INCONCLUSIVE property={prop} warm-up build of {crate} did not finish in 3600 s")
 	results = []
 	if sel:
 		with ThreadPoolExecutor(max_workers=workers) as ex:
